@@ -59,6 +59,8 @@ def run(check):
         rng = random.Random(derive_seed(check.seed, "c05-fin", i))
         sh = cancelfam.FINISHING[i % len(cancelfam.FINISHING)]
         prog, scripts, name = cancelfam.prog_finishing(rng, sh)
+        if i % 3 == 2:
+            scripts, name = cancelfam.slow_close(scripts, 15), name + "/slow-close"
         fin.append({"program": prog, "scripts": scripts, "input": cancelfam.base_input(rng), "shape": name})
     stats = {"cancel_points": 0, "faults": 0, "prepare_rejections": 0, "census_nonempty_at_return": 0, "max_settle_ms": 0.0}
     with harness.Runner() as rn:
@@ -82,9 +84,13 @@ def run(check):
                 idx += 1
                 g2 = dict(g, shape=g["shape"] + "/cancel@%d" % k, cancel=("seq", k))
                 items.append((c2, s2, g2))
-        for i in range(check.pick(7, 28)):
+        for i in range(check.pick(21, 63)):
             rng = random.Random(derive_seed(check.seed, "c05-never", i))
             prog, scripts, name = cancelfam.NEVER_ENDING[i % len(cancelfam.NEVER_ENDING)](rng)
+            v = (i // len(cancelfam.NEVER_ENDING)) % 3
+            if v:
+                # deployments that take a while to close: the run must not return before they are closed
+                scripts, name = cancelfam.slow_close(scripts, only_never_ending=v == 2), name + "/slow-close" + ("-of-never-ending" if v == 2 else "")
             inp = cancelfam.base_input(rng)
             evs, _sem = cancelfam.certain_events(prog, scripts, inp)
             for (kind, src, nth) in evs:
@@ -92,6 +98,46 @@ def run(check):
                 c2, s2 = runfam.build_case("c05-%05d" % idx, g, triggers=[{"kind": kind, "src": src, "nth": nth, "action": "cancel:0"}])
                 idx += 1
                 items.append((c2, s2, g))
+
+        # a running step is stopped by its stop condition and closed by force by its own provider (it ignores the cancel
+        # signal or has no handler for it); its crash report completes an output, so the run ends while that step's
+        # deployment - slow to close - is still being closed
+        from .c04 import stop_while_running
+        for j in range(check.pick(16, 80)):
+            g, trig = stop_while_running(check, 5000 + j)
+            rng = random.Random(derive_seed(check.seed, "c05-stopped", j))
+            if rng.random() < 0.5:
+                g["program"].step("X").schema = "nocancel"
+                g["scripts"]["X"]["schema"] = "nocancel"
+                g["shape"] += "+nohandler"
+            g["scripts"]["X"]["deploys"] = [{}, {"close_delay_ms": rng.choice([20, 40])}]
+            g["shape"] += "/slow-close"
+            g["fault"] = ("stopped-while-running", g["shape"], "")
+            c2, s2 = runfam.build_case("c05-%05d" % idx, g, triggers=trig)
+            idx += 1
+            items.append((c2, s2, g))
+
+        # input that does not satisfy the input schema: the run is refused, and nothing may be left behind by the refusal
+        for j in range(check.pick(30, 200)):
+            rng = random.Random(derive_seed(check.seed, "c05-badinput", j))
+            sh = rng.choice(cancelfam.FINISHING)
+            prog, scripts, name = cancelfam.prog_finishing(rng, sh)
+            inp = cancelfam.base_input(rng)
+            how = rng.choice(["missing-required", "wrong-type", "not-an-object", "null", "unknown-field"])
+            if how == "missing-required":
+                inp.pop("tag", None)
+            elif how == "wrong-type":
+                inp["n"] = "not a number"
+            elif how == "not-an-object":
+                inp = ["tag"]
+            elif how == "null":
+                inp = None
+            else:
+                inp["no_such_field"] = 1
+            g = {"program": prog, "scripts": scripts, "input": inp, "shape": "%s/invalid-input:%s" % (name, how), "fault": ("invalid-input", how, ""), "invalid_input": True}
+            case = {"id": "c05-%05d" % idx, "files": prog.files(), "scripts": scripts, "runs": [{"input": inp}]}
+            idx += 1
+            items.append((case, None, g))
 
         # goroutine-start and hand-over points delayed: a run may end while a step goroutine has not even begun
         starts = [p for p in rn.points if ":go#" in p or ".go:entry#" in p or ":wgadd#" in p or ":wgdone#" in p]
@@ -140,6 +186,10 @@ def run(check):
             stats["prepare_rejections"] += 1
             if not (g.get("fault") and g["fault"][0] == "probe"):
                 stats.setdefault("unexpected_rejections", []).append((g["shape"], res["prepare_err"][:200]))
+        if g.get("invalid_input"):
+            err = ((res.get("runs") or [{}])[0].get("err") or "")
+            stats["invalid_inputs_refused"] = stats.get("invalid_inputs_refused", 0) + (1 if "invalid workflow input" in err else 0)
+            stats["invalid_inputs"] = stats.get("invalid_inputs", 0) + 1
         if res.get("census_at_return"):
             stats["census_nonempty_at_return"] += 1
         stats["max_settle_ms"] = max(stats["max_settle_ms"], res.get("settle_ms") or 0)
